@@ -167,6 +167,8 @@ def gen_cell(rseed: int, tier: str) -> Dict[str, Any]:
         "eio_at": None,
         "wrong_types": g.sample(WRONG_TYPES, 3) if g.random() < 0.3 else [],
         "fname": f.choice(["schema.dbml", "my schema.dbml", "schéma.dbml", "s.txt"]),
+        "eol": f.choice(["\n", "\n", "\n", "\n", "\n", "\r\n", "\r\n", "\r"]),
+        "positional": g.random() < 0.25,
         "pristine": {str(a): E1.PREP["pristine"][f"{doc}:{a}"] for a in (0, 1)},
     }
     if f.random() < (0.2 if tier == "thorough" else 0.15):
@@ -214,7 +216,12 @@ def execute_cell(cell: Dict[str, Any], tmp: str) -> Dict[str, Any]:
         violations.append({"property": PROP, "oracle": sig.split(":")[0], "signature": sig, "detail": detail})
 
     text = cell["text"]
-    data = (b"\xef\xbb\xbf" if cell["bom"] else b"") + text.encode("utf8")
+    eol = cell.get("eol", "\n")
+    # the file is saved with the cell's line endings; string routes get what a text-mode read of that file
+    # gives (universal newlines), so every route is handed "the same text"
+    data = (b"\xef\xbb\xbf" if cell["bom"] else b"") + text.replace("\n", eol).encode("utf8")
+    if eol != "\n":
+        stats["fault:non-lf-line-endings-in-file"] = 1
     stext = ("\ufeff" if cell["bom"] else "") + text
     fs = SimFS(cell, stats)
     had_open = "open" in vars(pmod)
@@ -231,6 +238,12 @@ def execute_cell(cell: Dict[str, Any], tmp: str) -> Dict[str, Any]:
         kw: Dict[str, Any] = {"allow_properties": cell["ap"]}
         if cell["rend"] == "tagged":
             kw["sql_renderer"], kw["dbml_renderer"] = st["renderers"]["tagged"]
+        pos: Tuple[Any, ...] = ()
+        if cell.get("positional"):
+            # options passed positionally, in the documented order (allow_properties, sql_renderer, dbml_renderer)
+            pos = (cell["ap"],) + ((kw["sql_renderer"], kw["dbml_renderer"]) if cell["rend"] == "tagged" else ())
+            kw = {}
+            stats["fault:positional-options"] = 1
 
         def file_obj() -> Any:
             enc = cell["file_encoding_by_caller"]
@@ -240,19 +253,19 @@ def execute_cell(cell: Dict[str, Any], tmp: str) -> Dict[str, Any]:
 
         def call(route: str) -> Any:
             if route == "ctor-str":
-                return PyDBML(stext, **kw)
+                return PyDBML(stext, *pos, **kw)
             if route == "ctor-path":
-                return PyDBML(pathlib.Path(path), **kw)
+                return PyDBML(pathlib.Path(path), *pos, **kw)
             if route == "ctor-file":
                 with file_obj() as f:
-                    return PyDBML(f, **kw)
+                    return PyDBML(f, *pos, **kw)
             if route == "parse-static":
-                return PyDBML.parse(stext, **kw)
+                return PyDBML.parse(stext, *pos, **kw)
             if route == "parse-instance":
                 inst = PyDBML()
                 if type(inst).__name__ == "Database":
                     raise core.HarnessError("PyDBML() returned a Database")
-                return inst.parse(stext, **kw)
+                return inst.parse(stext, *pos, **kw)
             if route == "parse_file-str":
                 return PyDBML.parse_file(path)
             if route == "parse_file-path":
@@ -374,7 +387,7 @@ class E2Driver:
             cell = c2
         res = execute(cells)
         out: Dict[str, Any] = {"counters": res["counters"], "distinct": {}}
-        key = core.digest([cell["doc"], cell["bom"], cell["ap"], cell["rend"], cell["chunk"], cell["bufsize"],
+        key = core.digest([cell["doc"], cell["bom"], cell["ap"], cell["rend"], cell["eol"], cell["positional"], cell["chunk"], cell["bufsize"],
                            cell["default_encoding"], cell["real_fs"], cell["eio_at"], cell["file_encoding_by_caller"]])
         out["distinct"]["history"] = key
         out["distinct"]["nontrivial"] = [core.digest([cell["doc"], cell["bom"], cell["ap"], cell["rend"], r,
@@ -431,7 +444,8 @@ class E2Driver:
 
         for k, simple in (("wrong_types", []), ("bom", False), ("ap", False), ("rend", "default"),
                           ("chunk", 1 << 20), ("bufsize", 8192), ("eio_at", None), ("real_fs", False),
-                          ("fname", "schema.dbml"), ("file_encoding_by_caller", "utf8"), ("default_encoding", "utf-8")):
+                          ("fname", "schema.dbml"), ("file_encoding_by_caller", "utf8"), ("default_encoding", "utf-8"),
+                          ("eol", "\n"), ("positional", False)):
             if cell.get(k) != simple:
                 c = dict(cell)
                 c[k] = simple
